@@ -10,6 +10,7 @@ import (
 	"regexp"
 	"sort"
 	"strings"
+	"syscall"
 	"time"
 
 	"github.com/Vedant9500/WTF/internal/database"
@@ -168,6 +169,10 @@ func engineCrashWrite(ctx *Ctx) {
 		{"save", []string{"save", "--keywords=new,entry", "--category=fresh", "--", "echo brand-new-command", "a new description saved now"}, "notebook", "saved successfully"},
 		{"save-pipeline", []string{"save-pipeline", "--", "my-pipe", "cat access.log | grep ERROR | sort | uniq -c"}, "notebook", "saved successfully"},
 		{"search", []string{"--database", mainP, "--all-platforms", "--", "compress directory"}, "history", ""},
+		// saving a command string that is already in the notebook (replace instead of append)
+		{"save-replace", []string{"save", "--keywords=changed", "--", "saved-tool-0 --flag value0 | sort", "the description was edited and is now different"}, "notebook", "saved successfully"},
+		// an immediate repeat of the newest history entry (update in place)
+		{"search-repeat", []string{"--database", mainP, "--all-platforms", "--", "earlier query 1"}, "history", ""},
 	}
 	states := []c09State{
 		{"notebook-missing/history-missing", nil, nil},
@@ -432,10 +437,98 @@ func engineCrashWrite(ctx *Ctx) {
 			}
 		}
 	}
+	// Flavour 5: the target is a single-file bind mount from a nearly full volume (docker-style `-v file:file`): the
+	// final rename is refused (EBUSY) and any write *in place* runs out of space after a few bytes. The file must still
+	// be complete-old or complete-new, and a save that did not take effect must say so.
+	if ctx.Shard == 0 || ctx.Shard == ctx.NShards/2 {
+		c09BindMounted(ctx, h, base, mainP)
+	}
 	ctx.R.Extra["strace_version"] = strings.TrimSpace(strings.SplitN(runOut("strace", "-V"), "\n", 2)[0])
 }
 
 func runOut(name string, args ...string) string {
 	b, _ := exec.Command(name, args...).CombinedOutput()
 	return string(b)
+}
+
+func c09BindMounted(ctx *Ctx, h *Home, base, mainP string) {
+	vol := filepath.Join(base, "vol")
+	os.MkdirAll(vol, 0o755)
+	if err := syscall.Mount("tmpfs", vol, "tmpfs", 0, "size=8192"); err != nil {
+		ctx.R.Path("bind-mount-unavailable", 1)
+		return
+	}
+	defer syscall.Unmount(vol, syscall.MNT_DETACH)
+	type sc struct {
+		name   string
+		target func() string
+		old    []byte
+		op     c09Op
+	}
+	// old contents sized just below the 8192-byte volume, so that the new content does not fit
+	hist := c09History(30)
+	pad := 8150 - len(hist)
+	if pad > 0 {
+		hist = bytes.Replace(hist, []byte("\"context\": \"generic directory\""), []byte("\"context\": \"generic directory "+strings.Repeat("x", pad)+"\""), 1)
+	}
+	nEntries := 40
+	nb := c09Notebook(nEntries)
+	for len(nb) > 8150 && nEntries > 1 {
+		nEntries--
+		nb = c09Notebook(nEntries)
+	}
+	scs := []sc{
+		{"history on a bind-mounted file", h.History, hist, c09Op{"search", []string{"--database", mainP, "--all-platforms", "--", "compress directory with a rather long query text to add bytes"}, "history", ""}},
+		{"notebook on a bind-mounted file", h.Personal, nb, c09Op{"save", []string{"save", "--", "echo new", strings.Repeat("long description ", 20)}, "notebook", "saved successfully"}},
+	}
+	for _, s := range scs {
+		for rep := 0; rep < 3; rep++ {
+			os.RemoveAll(h.Dir)
+			os.MkdirAll(h.Dir, 0o755)
+			os.MkdirAll(h.Cwd, 0o755)
+			dst := s.target()
+			os.MkdirAll(filepath.Dir(dst), 0o755)
+			src := filepath.Join(vol, "file")
+			os.Remove(src)
+			if err := os.WriteFile(src, s.old, 0o644); err != nil {
+				ctx.R.Path("bind-mount-unavailable", 1)
+				return
+			}
+			os.WriteFile(dst, nil, 0o644)
+			if err := syscall.Mount(src, dst, "", syscall.MS_BIND, ""); err != nil {
+				ctx.R.Path("bind-mount-unavailable", 1)
+				return
+			}
+			cs := map[string]interface{}{"scenario": s.name, "flavour": "rename-refused-and-volume-full", "old_len": len(s.old), "volume_bytes": 8192}
+			ctx.R.Begin(cs)
+			ctx.R.Eval(1)
+			res := c09Run(ctx, h, s.op, -1, 0, "")
+			got, _ := os.ReadFile(dst)
+			syscall.Unmount(dst, syscall.MNT_DETACH)
+			ctx.R.Path("bind-mounted-target-runs", 1)
+			ctx.R.Nontriv("bind", s.name, rep)
+			if bad, why := res.Crashed(); bad {
+				ctx.R.Violate(vlib.Violation{Property: "C09", Clause: "crash-on-write-failure", Path: s.op.Name + "/bind-mounted", Detail: why, Witness: cs})
+				continue
+			}
+			complete := bytes.Equal(got, s.old)
+			if !complete && s.op.Target == "history" {
+				_, complete = c09HistKey(got) // a complete new history parses
+			}
+			if !complete && s.op.Target == "notebook" {
+				if db, err := database.LoadDatabase(dst); err == nil && len(db.Commands) > 0 {
+					complete = false // the volume cannot hold the complete new content
+				}
+			}
+			if !complete {
+				ctx.R.Violate(vlib.Violation{Property: "C09", Clause: "torn-file", Path: s.op.Name + "/bind-mounted",
+					Detail:  fmt.Sprintf("%s: the file holds %d bytes, neither the complete previous content (%d bytes) nor a complete new one", s.name, len(got), len(s.old)),
+					Witness: map[string]interface{}{"case": cs, "stdout": vlib.Trunc(res.Stdout, 300)}})
+			}
+			if s.op.OkMsg != "" && strings.Contains(res.Stdout, s.op.OkMsg) && bytes.Equal(got, s.old) {
+				ctx.R.Violate(vlib.Violation{Property: "C09", Clause: "success-reported-but-not-saved", Path: s.op.Name + "/bind-mounted",
+					Detail: "save printed its success message but the notebook is unchanged", Witness: cs})
+			}
+		}
+	}
 }
